@@ -145,3 +145,184 @@ def rand_ast(rng, depth=4, allow_fn=False):
         inner = " ".join("%s %s" % (wire.s(rng.choice(KEYS)), sub()) for _ in range(n))
         return "MHash { %s }" % inner if n else "MHash { }"
     return "Cond %s %s" % (sub(), sub())
+
+
+# ---------------------------------------------------------------- expression strings (token lists)
+IDENTS = ["a", "b", "c", "foo", "bar", "baz", "_x", "A1", "é"]
+FUNCS = [("length", 1), ("abs", 1), ("sort", 1), ("keys", 1), ("values", 1), ("type", 1), ("to_string", 1), ("to_number", 1),
+         ("to_array", 1), ("reverse", 1), ("not_null", 2), ("contains", 2), ("starts_with", 2), ("ends_with", 2), ("join", 2),
+         ("merge", 2), ("max", 1), ("min", 1), ("sum", 1), ("avg", 1), ("ceil", 1), ("floor", 1), ("unknown_fn", 1)]
+BYFUNCS = ["sort_by", "max_by", "min_by"]
+
+
+def json_text(v):
+    return json.dumps(v, ensure_ascii=False)
+
+
+def tok_ident(rng):
+    k = rng.choice(IDENTS)
+    if not (k.isascii() and (k[0].isalpha() or k[0] == "_")) or rng.random() < 0.15:
+        return json.dumps(k, ensure_ascii=rng.random() < 0.5)
+    return k
+
+
+def tok_literal(rng):
+    r = rng.random()
+    if r < 0.35:
+        s = rand_string(rng, 3).replace("\\", "").replace("'", "\\'")
+        return "'" + s + "'"
+    v = rand_doc(rng, 1)
+    return "`" + json_text(v).replace("`", "\\`") + "`"
+
+
+def tok_number(rng):
+    r = rng.random()
+    if r < 0.8:
+        return str(rng.randint(-3, 5))
+    return str(rng.choice([2147483647, -2147483647, 2147483648, -2147483648, 10, 100, 0, 7]))
+
+
+def gen_expr(rng, depth):
+    """-> list of token strings forming (usually) a sentence"""
+    e = lambda: gen_expr(rng, depth - 1)
+    if depth <= 0:
+        r = rng.random()
+        if r < 0.6:
+            return [tok_ident(rng)]
+        if r < 0.7:
+            return ["@"]
+        if r < 0.85:
+            return [tok_literal(rng)]
+        return ["*"] if rng.random() < 0.5 else ["[", "*", "]"]
+    r = rng.random()
+    if r < 0.10:
+        return [tok_ident(rng)]
+    if r < 0.13:
+        return ["@"]
+    if r < 0.17:
+        return [tok_literal(rng)]
+    if r < 0.21:
+        return ["!"] + e()
+    if r < 0.26:
+        return ["("] + e() + [")"]
+    if r < 0.40:
+        # dot
+        k = rng.random()
+        if k < 0.6:
+            rhs = [tok_ident(rng)]
+        elif k < 0.7:
+            rhs = ["*"]
+        elif k < 0.8:
+            rhs = gen_multilist(rng, depth - 1)
+        elif k < 0.9:
+            rhs = gen_multihash(rng, depth - 1)
+        else:
+            rhs = gen_call(rng, depth - 1)
+        return e() + ["."] + rhs
+    if r < 0.47:
+        return e() + ["[", tok_number(rng), "]"]
+    if r < 0.53:
+        return (e() if rng.random() < 0.8 else []) + gen_slice(rng)
+    if r < 0.58:
+        return (e() if rng.random() < 0.8 else []) + ["[", "*", "]"]
+    if r < 0.63:
+        return (e() if rng.random() < 0.8 else []) + ["[]"]
+    if r < 0.69:
+        return (e() if rng.random() < 0.8 else []) + ["[?"] + e() + ["]"]
+    if r < 0.74:
+        return e() + ["||"] + e()
+    if r < 0.79:
+        return e() + ["&&"] + e()
+    if r < 0.85:
+        return e() + [rng.choice(["==", "!=", "<", "<=", ">", ">="])] + e()
+    if r < 0.90:
+        return e() + ["|"] + e()
+    if r < 0.93:
+        return gen_multilist(rng, depth - 1)
+    if r < 0.96:
+        return gen_multihash(rng, depth - 1)
+    return gen_call(rng, depth - 1)
+
+
+def gen_slice(rng):
+    def part():
+        return [tok_number(rng)] if rng.random() < 0.5 else []
+    t = ["["] + part() + [":"] + part()
+    if rng.random() < 0.5:
+        t += [":"] + part()
+    return t + ["]"]
+
+
+def gen_multilist(rng, depth):
+    n = rng.randint(1, 3)
+    t = ["["]
+    for i in range(n):
+        if i:
+            t.append(",")
+        t += gen_expr(rng, depth)
+    return t + ["]"]
+
+
+def gen_multihash(rng, depth):
+    n = rng.randint(1, 3)
+    t = ["{"]
+    for i in range(n):
+        if i:
+            t.append(",")
+        t += [tok_ident(rng), ":"] + gen_expr(rng, depth)
+    return t + ["}"]
+
+
+def gen_call(rng, depth):
+    if rng.random() < 0.25:
+        name = rng.choice(BYFUNCS)
+        return [name, "("] + gen_expr(rng, depth) + [",", "&"] + gen_expr(rng, depth) + [")"]
+    if rng.random() < 0.1:
+        return ["map", "(", "&"] + gen_expr(rng, depth) + [","] + gen_expr(rng, depth) + [")"]
+    name, ar = rng.choice(FUNCS)
+    if rng.random() < 0.1:
+        ar = rng.choice([0, 1, 2, 3])
+    t = [name, "("]
+    for i in range(ar):
+        if i:
+            t.append(",")
+        t += gen_expr(rng, depth)
+    return t + [")"]
+
+
+SOUP = ["a", "b", ".", "*", "[", "]", "[]", "[?", "(", ")", "{", "}", ",", ":", "|", "||", "&", "&&", "!", "==", "!=", "<", "<=", ">", ">=",
+        "@", "0", "1", "-1", "'x'", "`1`", '"q"', "=", "-", "`", "'", '"', "\\", "#", "é", "\n", "2147483648", "-0", "f(", "&a"]
+
+
+def mutate(rng, toks):
+    toks = list(toks)
+    k = rng.random()
+    if not toks:
+        return [rng.choice(SOUP)]
+    i = rng.randrange(len(toks))
+    if k < 0.3:
+        del toks[i]
+    elif k < 0.55:
+        toks.insert(i, rng.choice(SOUP))
+    elif k < 0.7:
+        toks.insert(i, toks[i])
+    elif k < 0.85:
+        j = rng.randrange(len(toks))
+        toks[i], toks[j] = toks[j], toks[i]
+    else:
+        toks[i] = rng.choice(SOUP)
+    return toks
+
+
+def render(rng, toks, spacing=None):
+    """joins tokens; adjacent word-like tokens get a space; otherwise random whitespace"""
+    out = []
+    prev = ""
+    for t in toks:
+        need = bool(prev) and (prev[-1].isalnum() or prev[-1] in "_\"") and (t[0].isalnum() or t[0] in "_\"-")
+        r = rng.random() if spacing is None else spacing
+        if need or r < 0.25:
+            out.append(rng.choice([" ", " ", "  ", "\n", "\t"]) if need or r < 0.2 else "")
+        out.append(t)
+        prev = t
+    return "".join(out)
